@@ -160,6 +160,7 @@ struct C05 : Property
 	{
 		std::map<void *, int> slotrefs; // references held by container slots
 		std::set<void *> nodes;          // reachable from the handles
+		std::vector<void *> order;       // discovery order (deterministic: handle slots, then depth first) - never iterate by address
 	};
 	// walk the trees of all handles through the public API
 	void walk(State &s, Graph &g, RunCtx &ctx, const std::set<void *> *freed_now = nullptr)
@@ -176,6 +177,7 @@ struct C05 : Property
 				ctx.fail("C05:destroyed-while-still-referenced", "a node freed during this op is still referenced by a handle or a live container");
 			if (!g.nodes.insert(o).second)
 				continue;
+			g.order.push_back(o);
 			enum json_type t = LIB(json_object_get_type(o));
 			if (t == json_type_array)
 			{
@@ -252,7 +254,7 @@ struct C05 : Property
 	// register nodes that appeared (constructors, parser, copies) and install tracking on part of them
 	void adopt_new_nodes(State &s, const Graph &g)
 	{
-		for (void *n : g.nodes)
+		for (void *n : g.order)
 		{
 			if (s.known.count(n))
 				continue;
@@ -708,7 +710,7 @@ struct C05 : Property
 			walk(s, after, ctx, &freed_now);
 			// nodes known before the op and no longer reachable must be exactly the destroyed ones
 			std::vector<int64_t> unreachable, destroyed = s.freed_ids;
-			for (void *n : before.nodes)
+			for (void *n : before.order)
 				if (!after.nodes.count(n) || freed_now.count(n))
 				{
 					// find its id: still in known if it was NOT freed
@@ -763,7 +765,7 @@ struct C05 : Property
 			if (!destroyed.empty())
 			{
 				// some child of a destroyed container survived through another owner?
-				for (void *n : before.nodes)
+				for (void *n : before.order)
 					if (freed_now.count(n) == 0 && before.slotrefs.count(n) && after.nodes.count(n) && refcount(s, after, n) < refcount(s, before, n))
 					{
 						ctx.probe("child_outlives_parent");
